@@ -2,6 +2,7 @@ package props
 
 import (
 	"context"
+	"encoding/binary"
 	"fmt"
 	"math"
 	"os"
@@ -19,7 +20,7 @@ import (
 // C10 — ExchangeServer answers any request with bounded work and only true store data.
 
 type C10Req struct {
-	Kind      string `json:"kind"` // origin | hash | empty | raw
+	Kind      string `json:"kind"` // origin | hash | empty | raw | stall (a prefix of a valid request, then silence with the stream left open)
 	OriginSel int    `json:"origin_sel,omitempty"`
 	AmountSel int    `json:"amount_sel,omitempty"`
 	HashSel   int    `json:"hash_sel,omitempty"` // 0 known 1 unknown 2 empty (present, zero length) 3 oversized 4 short prefix of a known hash 5 known hash plus one byte 6 absent (nil)
@@ -41,7 +42,12 @@ const (
 
 func genC10Req(t *rapid.T) C10Req {
 	r := C10Req{}
-	switch rapid.IntRange(0, 9).Draw(t, "kind") {
+	switch rapid.IntRange(0, 10).Draw(t, "kind") {
+	case 10:
+		r.Kind = "stall"
+		r.OriginSel = rapid.IntRange(0, c10OriginSels-1).Draw(t, "origin")
+		r.AmountSel = rapid.IntRange(0, c10AmountSels-1).Draw(t, "amount")
+		r.HashAt = rapid.IntRange(0, 12).Draw(t, "stallcut") // how many bytes of the framed request are sent
 	case 0:
 		r.Kind = "hash"
 		r.HashSel = rapid.IntRange(0, 6).Draw(t, "hashsel")
@@ -304,6 +310,27 @@ func runC10(t *testing.T, s C10Scenario) (res Result) {
 				nBoundary++
 			}
 			rec.take()
+			if r.Kind == "stall" {
+				// the client sends a few bytes of a valid request (possibly none) and then nothing, keeping its
+				// side open: the server must give up by its read deadline
+				full := &p2p_pb.HeaderRequest{Data: &p2p_pb.HeaderRequest_Origin{Origin: c10Origin(r.OriginSel, s.Tail, head)}, Amount: c10Amount(r.AmountSel)}
+				body, _ := full.Marshal()
+				framed := append(binary.AppendUvarint(nil, uint64(len(body))), body...)
+				cut := min(r.HashAt, len(framed)-1)
+				ctx, cancel := vctx(30 * time.Second)
+				resp := rawRequestStall(ctx, ne.hosts[1], ne.hosts[0].ID(), framed[:cut])
+				cancel()
+				if len(resp.Frames) > 0 {
+					res.failf("request #%d %+v: the server answered with %d frame(s) to a request it never received completely", i, r, len(resp.Frames))
+					return
+				}
+				if resp.Elapsed > c10Read+time.Second {
+					res.failf("request #%d %+v: the server kept a stream whose request never arrived for %v (read deadline %v)", i, r, resp.Elapsed, c10Read)
+					return
+				}
+				nBoundary++
+				continue
+			}
 			if r.SlowStore {
 				rec.setDelay(6 * time.Second)
 			}
